@@ -8,8 +8,9 @@ use duke::tree::method::{Method, MethodAccess, MethodNameAndDesc};
 use duke::tree::version::Version;
 use dukebox::storage::{BasicFileAttributes, ClassRepr, IsClass, JarEntryEnum, ParsedJar, ParsedJarEntry};
 use dukenest::nest::{Nest, NestType, Nests};
+use quill::remapper::{ARemapper, BRemapper, NoSuperClassProvider};
 use quill::tree::mappings::{ClassMapping, ClassNowodeMapping, FieldMapping, FieldNowodeMapping, Mappings};
-use fvh::mapcodec::{cn, from_sexp, mdesc, mname, to_sexp};
+use fvh::mapcodec::{class_to as class_to_sexp, cn, from_sexp, mdesc, mname, to_sexp};
 use fvh::mapgen::{field_desc, method_desc};
 use fvh::rng::Rng;
 use fvh::run::{main_for, Ans, Out, Tier};
@@ -26,7 +27,6 @@ const VERSIONS: &[Version] = &[
 	Version::V9, Version::V10, Version::V11, Version::V12, Version::V13, Version::V14, Version::V15, Version::V16,
 	Version::V17, Version::V18, Version::V19, Version::V20, Version::V21, Version::V22, Version::V23,
 ];
-const ACCESS_MASK: usize = 0x761F;
 const PROBE: &str = "verif_probe/P";
 const PROBE_DST: &str = "verif_probe/Q";
 
@@ -257,7 +257,8 @@ fn all_kept_observed(jar: &PJ, ns: &NA) -> bool {
 	let Ok(out) = dukenest::nest_jar(false, jar, clone_nests(ns)) else { return false };
 	let after = jar_classes(&out);
 	ns.all.values().all(|n| {
-		let Some(b) = before.get(n.class_name.as_inner()) else { return false };
+		// a class that is not in the source jar can still be nested: when it was synthesised as an enclosing class before
+		let b = before.get(n.class_name.as_inner()).copied().unwrap_or(0);
 		after.iter().any(|c| c.name == n.class_name && c.inner_classes.as_ref().is_some_and(|v|
 			v.len() == b + 1 && v.last().is_some_and(|ic| ic.inner_class.as_inner() == n.class_name.as_inner())))
 	})
@@ -289,16 +290,130 @@ fn dedup(v: Vec<JavaString>) -> Vec<JavaString> {
 	out
 }
 
-/// keys, first names, descriptors and member keys (the second namespace is not restored by design)
+/// everything but the second-namespace class names (those are not restored by design)
 fn src_view(m: &MM) -> Sexp {
 	Sexp::list(m.classes.iter().map(|(k, c)| {
 		let names: &[Option<ObjClassName>; 2] = (&c.info.names).into();
-		Sexp::list(vec![
-			Sexp::jstr(k.as_inner()), Sexp::opt(names[0].as_ref(), |n| Sexp::jstr(n.as_inner())),
-			Sexp::list(c.fields.iter().map(|(k, f)| Sexp::list(vec![Sexp::jstr(k.name.as_inner()), Sexp::jstr(k.desc.as_inner()), Sexp::jstr(f.info.desc.as_inner())])).collect()),
-			Sexp::list(c.methods.iter().map(|(k, f)| Sexp::list(vec![Sexp::jstr(k.name.as_inner()), Sexp::jstr(k.desc.as_inner()), Sexp::jstr(f.info.desc.as_inner())])).collect()),
-		])
+		let full = class_to_sexp(k, c);
+		let items = full.as_list().expect("class sexp");
+		Sexp::list(vec![items[0].clone(), Sexp::opt(names[0].as_ref(), |n| Sexp::jstr(n.as_inner())), items[2].clone(), items[3].clone(), items[4].clone()])
 	}).collect())
+}
+
+/// entries stored under the key derived from their info, second class names non-empty (key uniqueness is given by `IndexMap`)
+fn wf_mappings(m: &MM) -> bool {
+	m.classes.iter().all(|(k, c)| {
+		let names: &[Option<ObjClassName>; 2] = (&c.info.names).into();
+		names[0].as_ref() == Some(k)
+			&& names[1].as_ref().map_or(true, |d| !d.as_inner().is_empty())
+			&& c.fields.iter().all(|(fk, f)| { let n: &[Option<FieldName>; 2] = (&f.info.names).into(); n[0].as_ref() == Some(&fk.name) && fk.desc == f.info.desc })
+			&& c.methods.iter().all(|(mk, f)| { let n: &[Option<duke::tree::method::MethodName>; 2] = (&f.info.names).into(); n[0].as_ref() == Some(&mk.name) && mk.desc == f.info.desc })
+	})
+}
+
+// ------------------------------------------------------------------------------------------------ state-free specifications (for the oracles)
+
+/// is `c` counted as present once the filter has looked at the nests `pre` (in table order)?
+fn spec_present(names: &[JavaString], pre: &[&Nest], c: &JavaStr) -> bool {
+	match pre.split_last() {
+		None => names.iter().any(|n| n == c),
+		Some((m, older)) => spec_present(names, older, c)
+			|| (c == m.encl_class_name.as_inner() && spec_present(names, older, m.class_name.as_inner())),
+	}
+}
+
+fn spec_has_encl_method(classes: &[ClassFile], n: &Nest) -> bool {
+	let Some(m) = &n.encl_method else { return false };
+	// the last class of that name wins (`methods_map.insert`)
+	classes.iter().rev().find(|c| c.name == n.encl_class_name)
+		.is_some_and(|c| c.methods.iter().any(|x| x.name == m.name && x.descriptor == m.desc))
+}
+
+fn spec_kind_rule(classes: &[ClassFile], n: &Nest) -> bool {
+	match n.nest_type {
+		NestType::Anonymous => n.inner_name.as_inner().as_str().ok().and_then(|s| s.parse::<i32>().ok()).is_some_and(|x| x >= 1),
+		NestType::Inner => !spec_has_encl_method(classes, n),
+		NestType::Local => spec_has_encl_method(classes, n),
+	}
+}
+
+/// (applied nests, synthesised enclosing classes) as the property states them
+fn spec_filter<'a>(classes: &[ClassFile], ns: &'a NA) -> (Vec<&'a Nest>, Vec<JavaString>) {
+	let names: Vec<JavaString> = dedup(classes.iter().map(|c| c.name.as_inner().to_owned()).collect());
+	let all: Vec<&Nest> = ns.all.values().collect();
+	let (mut kept, mut created) = (Vec::new(), Vec::new());
+	for (i, n) in all.iter().enumerate() {
+		let pre = &all[..i];
+		if !spec_present(&names, pre, n.class_name.as_inner()) { continue; }
+		if !spec_present(&names, pre, n.encl_class_name.as_inner()) { created.push(n.encl_class_name.as_inner().to_owned()); }
+		if spec_kind_rule(classes, n) { kept.push(*n); }
+	}
+	(kept, created)
+}
+
+fn strip_digits(s: &JavaStr) -> &JavaStr {
+	let t = s.trim_start_matches(|c: java_string::JavaCodePoint| c.is_ascii_digit());
+	if t.is_empty() { s } else { t }
+}
+
+/// the class with the attributes the property asks for
+fn spec_add_attrs(kept: &[&Nest], mut c: ClassFile) -> ClassFile {
+	if let Some(n) = kept.iter().find(|n| n.class_name == c.name) {
+		let (inner, local, anon) = (matches!(n.nest_type, NestType::Inner), matches!(n.nest_type, NestType::Local), matches!(n.nest_type, NestType::Anonymous));
+		if anon || local {
+			c.enclosing_method = Some(EnclosingMethod { class: cname(n.encl_class_name.as_inner().to_owned()), method: n.encl_method.clone() });
+		}
+		let ic = InnerClass {
+			inner_class: cname(n.class_name.as_inner().to_owned()),
+			outer_class: if inner { Some(cname(n.encl_class_name.as_inner().to_owned())) } else { None },
+			inner_name: if inner || local { Some(strip_digits(n.inner_name.as_inner()).to_owned()) } else { None },
+			flags: n.inner_access,
+		};
+		c.inner_classes.get_or_insert_with(Vec::new).push(ic);
+	}
+	c
+}
+
+/// `Enclosing$Inner`, transitively (the table is acyclic)
+fn spec_name(ns: &NA, c: &JavaStr) -> JavaString {
+	match ns.all.get(&cn(c.to_owned())) {
+		Some(n) => { let mut s = spec_name(ns, n.encl_class_name.as_inner()); s.push('$'); s.push_java_str(n.inner_name.as_inner()); s }
+		None => c.to_owned(),
+	}
+}
+
+/// descriptor with every `L<name>;` renamed; `None` on a descriptor `map_desc` rejects
+fn spec_desc(ns: &NA, d: &JavaStr) -> Option<JavaString> {
+	let mut out = JavaString::new();
+	let mut cur: Option<JavaString> = None;
+	for c in d.chars() {
+		match &mut cur {
+			None => { out.push_java(c); if c == 'L' { cur = Some(JavaString::new()); } }
+			Some(name) => if c == ';' {
+				if name.is_empty() { return None; }
+				out.push_java_str(&spec_name(ns, name)); out.push(';'); cur = None;
+			} else { name.push_java(c); },
+		}
+	}
+	if cur.is_some() { None } else { Some(out) }
+}
+
+fn simple_name(s: &JavaStr) -> &JavaStr { s.rsplit_once('/').map_or(s, |(_, b)| b) }
+
+/// the inner name of a translated nest as the property describes it; `None` = the nest cannot be translated
+fn spec_inner_name(class: &JavaStr, inner: &JavaStr, mapped: &JavaStr) -> Option<JavaString> {
+	let digits = inner.len() - inner.trim_start_matches(|c: java_string::JavaCodePoint| c.is_ascii_digit()).len();
+	let (pre, rest) = inner.split_at(digits);
+	if rest.is_empty() {
+		match simple_name(mapped).strip_prefix("C_") {
+			Some(num) => if num.chars().all(|c| c.is_ascii_digit()) { Some(num.to_owned()) } else { None },
+			None => Some(inner.to_owned()),
+		}
+	} else if pre.is_empty() {
+		Some(if class.ends_with(inner) { simple_name(mapped).to_owned() } else { inner.to_owned() })
+	} else if class.ends_with(rest) {
+		let mut s = pre.to_owned(); s.push_java_str(simple_name(mapped)); Some(s)
+	} else { Some(inner.to_owned()) }
 }
 
 // ------------------------------------------------------------------------------------------------ exec
@@ -328,6 +443,14 @@ fn exec(op: &str, args: &[Sexp]) -> Ans {
 			if cyclic(&ns) { return Ans::Err("diverge".into()); }
 			match map_names_via(empty_mappings(), &ns, &[c]) { Ok((v, _)) => Ans::Ok(Sexp::jstr(&v[0])), Err(_) => Ans::Skip("unobservable".into()) }
 		}
+		// NOT generated: runs the real recursion without the `cyclic` guard (a cyclic table overflows the stack and kills the process)
+		("nest-name-map-unguarded", [ns, c]) => {
+			let ns = tr!(nests_from(ns)); let c = tr!(c.as_jstring());
+			let mut m = empty_mappings();
+			let (k, pc) = probe_class(&[c]);
+			m.classes.insert(k, pc);
+			match dukenest::undo_nests_to_mappings(m, &ns) { Ok(_) => Ans::ok_tag("terminated"), Err(_) => Ans::err() }
+		}
 		("map-nests", [ns, m]) => {
 			let ns = tr!(nests_from(ns)); let m: MM = tr!(from_sexp(m));
 			match dukenest::remap_nests(&ns, &m) { Ok(r) => Ans::Ok(nests_to(&r)), Err(_) => Ans::err() }
@@ -355,7 +478,7 @@ fn exec(op: &str, args: &[Sexp]) -> Ans {
 		}
 		("oracle-undo-apply", [m, ns]) => {
 			let ns = tr!(nests_from(ns)); let m: MM = tr!(from_sexp(m));
-			if cyclic(&ns) { return Ans::out_of_domain(); }
+			if cyclic(&ns) || !wf_mappings(&m) { return Ans::out_of_domain(); }
 			let used = used_names(&m);
 			if !used.iter().all(|n| clean(n)) { return Ans::out_of_domain(); }
 			let keys: Vec<JavaString> = ns.all.keys().map(|k| k.as_inner().to_owned()).collect();
@@ -373,6 +496,130 @@ fn exec(op: &str, args: &[Sexp]) -> Ans {
 				Applied::Ok(back) => if src_view(&back) == view { Ans::pass() } else { Ans::fail("differs") },
 				_ => Ans::fail("undo_err"),
 			}
+		}
+		("oracle-nest-jar-spec", [ns, jar]) => {
+			let ns = tr!(nests_from(ns)); let jar = tr!(jar_from(jar));
+			let classes = jar_classes(&jar);
+			if cyclic(&ns) || classes.is_empty() { return Ans::out_of_domain(); }
+			let version = classes.iter().map(|c| c.version).min().expect("classes");
+			let (kept, created) = spec_filter(&classes, &ns);
+			let Ok(out) = dukenest::nest_jar(false, &jar, clone_nests(&ns)) else { return Ans::fail("nest_jar_err") };
+			// every source entry under its name: classes with the attributes, the rest untouched
+			for (k, e) in &jar.entries {
+				let Some(o) = out.entries.get(k) else { return Ans::fail("entry_lost") };
+				match (&e.content, &o.content) {
+					(JarEntryEnum::Dir, JarEntryEnum::Dir) => {}
+					(JarEntryEnum::Other(a), JarEntryEnum::Other(b)) => if a != b { return Ans::fail("resource_changed") },
+					(JarEntryEnum::Class(a), JarEntryEnum::Class(b)) => {
+						let want = spec_add_attrs(&kept, tr!(a.read()));
+						if class_to(&want) != class_to(&tr!(b.read())) { return Ans::fail("class_attrs") }
+					}
+					_ => return Ans::fail("entry_kind"),
+				}
+			}
+			// every missing enclosing class is created
+			for name in &created {
+				let key = match name.clone().into_string() { Ok(s) => format!("{s}.class"), Err(_) => return Ans::out_of_domain() };
+				if jar.entries.contains_key(&key) { continue; }
+				let Some(o) = out.entries.get(&key) else { return Ans::fail("enclosing_not_created") };
+				let JarEntryEnum::Class(b) = &o.content else { return Ans::fail("created_kind") };
+				let fresh = ClassFile::new(version, ClassAccess { is_public: true, ..ClassAccess::default() }, cn(name.clone()), Some(cn(js("java/lang/Object"))), vec![]);
+				if class_to(&spec_add_attrs(&kept, fresh)) != class_to(&tr!(b.read())) { return Ans::fail("created_class") }
+			}
+			// nothing else
+			for k in out.entries.keys() {
+				if !jar.entries.contains_key(k) && !created.iter().any(|n| n.as_str().is_ok_and(|n| format!("{n}.class") == *k)) { return Ans::fail("extra_entry") }
+			}
+			Ans::pass()
+		}
+		("oracle-remap-names", [ns, jar]) => {
+			let ns = tr!(nests_from(ns)); let jar = tr!(jar_from(jar));
+			let classes = jar_classes(&jar);
+			if cyclic(&ns) || classes.is_empty() { return Ans::out_of_domain(); }
+			let (kept, created) = spec_filter(&classes, &ns);
+			let mut kept_table = NA::default();
+			for n in &kept { kept_table.all.insert(n.class_name.clone(), (*n).clone()); }
+			// expected (entry name, class name) in order: synthesised classes first, then the source entries
+			let mut want: Vec<(JavaString, Option<JavaString>)> = Vec::new();
+			for name in &created {
+				let new = spec_name(&kept_table, name);
+				let mut key = new.clone(); key.push_str(".class");
+				want.push((key, Some(new)));
+			}
+			for (k, e) in &jar.entries {
+				let kj = js(k);
+				match &e.content {
+					JarEntryEnum::Class(c) => {
+						let key = match kj.strip_suffix(".class") { Some(b) => { let mut x = spec_name(&kept_table, b); x.push_str(".class"); x } None => kj.clone() };
+						want.push((key, Some(spec_name(&kept_table, tr!(c.read()).name.as_inner()))));
+					}
+					_ => want.push((kj, None)),
+				}
+			}
+			for (i, (k, _)) in want.iter().enumerate() { if want[..i].iter().any(|(k2, _)| k2 == k) { return Ans::out_of_domain(); } }
+			let Ok(out) = dukenest::nest_jar(true, &jar, clone_nests(&ns)) else { return Ans::fail("nest_jar_err") };
+			let got: Vec<(JavaString, Option<JavaString>)> = out.entries.iter().map(|(k, e)| (js(k), match &e.content {
+				JarEntryEnum::Class(c) => c.read().ok().map(|c| c.name.as_inner().to_owned()), _ => None })).collect();
+			if got.len() != want.len() { return Ans::fail("entry_count") }
+			for ((gk, gc), (wk, wc)) in got.iter().zip(want.iter()) {
+				if gk != wk { return Ans::fail(if created.iter().any(|c| gk == c) { "created_entry_name" } else { "entry_name" }) }
+				if gc != wc { return Ans::fail("class_name") }
+			}
+			Ans::pass()
+		}
+		("oracle-apply-spec", [m, ns]) => {
+			let ns = tr!(nests_from(ns)); let m: MM = tr!(from_sexp(m));
+			let before = m.clone();
+			let Applied::Ok(after) = safe_apply(m, &ns) else { return Ans::out_of_domain() };
+			if after.classes.len() != before.classes.len() { return Ans::fail("class_count") }
+			for ((k, c), (k2, c2)) in before.classes.iter().zip(after.classes.iter()) {
+				if k2.as_inner() != &spec_name(&ns, k.as_inner()) { return Ans::fail("class_key") }
+				let names2: &[Option<ObjClassName>; 2] = (&c2.info.names).into();
+				if names2[0].as_ref() != Some(k2) { return Ans::fail("first_name") }
+				if c2.javadoc != c.javadoc { return Ans::fail("class_doc") }
+				if c2.fields.len() != c.fields.len() || c2.methods.len() != c.methods.len() { return Ans::fail("member_count") }
+				// parameters (compared through the codec: the tree types have no `PartialEq`)
+				let (sb, sa) = (class_to_sexp(k, c), class_to_sexp(k2, c2));
+				let params = |x: &Sexp| -> Vec<Sexp> { x.as_list().ok().and_then(|l| l.get(4).cloned()).and_then(|ms| ms.as_list().ok().map(|ms| ms.iter().filter_map(|m| m.as_list().ok().and_then(|m| m.get(5).cloned())).collect())).unwrap_or_default() };
+				if params(&sb) != params(&sa) { return Ans::fail("method_params") }
+				for ((_, f), (fk2, f2)) in c.fields.iter().zip(c2.fields.iter()) {
+					let n: &[Option<FieldName>; 2] = (&f.info.names).into();
+					if spec_desc(&ns, f.info.desc.as_inner()).as_deref() != Some(f2.info.desc.as_inner()) { return Ans::fail("field_desc") }
+					if Some(&fk2.name) != n[0].as_ref() || fk2.desc != f2.info.desc { return Ans::fail("field_key") }
+					if f2.info.names != f.info.names || f2.javadoc != f.javadoc { return Ans::fail("field_rest") }
+				}
+				for ((_, f), (fk2, f2)) in c.methods.iter().zip(c2.methods.iter()) {
+					let n: &[Option<duke::tree::method::MethodName>; 2] = (&f.info.names).into();
+					if spec_desc(&ns, f.info.desc.as_inner()).as_deref() != Some(f2.info.desc.as_inner()) { return Ans::fail("method_desc") }
+					if Some(&fk2.name) != n[0].as_ref() || fk2.desc != f2.info.desc { return Ans::fail("method_key") }
+					if f2.info.names != f.info.names || f2.javadoc != f.javadoc { return Ans::fail("method_rest") }
+				}
+			}
+			Ans::pass()
+		}
+		("oracle-map-nests-spec", [ns, m]) => {
+			let ns = tr!(nests_from(ns)); let m: MM = tr!(from_sexp(m));
+			let Ok(out) = dukenest::remap_nests(&ns, &m) else { return Ans::out_of_domain() };
+			let Ok(rem) = m.remapper_b_first_to_second(NoSuperClassProvider::new()) else { return Ans::fail("remapper") };
+			let mut wanted: IndexMap<ObjClassName, Nest> = IndexMap::new();
+			for n in ns.all.values() {
+				let Ok(mapped) = rem.map_class(&n.class_name) else { return Ans::fail("map_class") };
+				let (encl, inner) = match mapped.as_inner().rsplit_once("__") {
+					Some((e, i)) => (cn(e.to_owned()), cn(i.to_owned())),
+					None => {
+						let Ok(e) = rem.map_class(&n.encl_class_name) else { return Ans::fail("map_encl") };
+						let Some(i) = spec_inner_name(n.class_name.as_inner(), n.inner_name.as_inner(), mapped.as_inner()) else { return Ans::fail("inner_name_but_ok") };
+						(e, cn(i))
+					}
+				};
+				let encl_method = match &n.encl_method {
+					None => None,
+					Some(md) => match rem.map_method_name_and_desc(&n.encl_class_name, md) { Ok(x) => Some(x), Err(_) => return Ans::fail("map_method") },
+				};
+				wanted.insert(mapped.clone(), Nest { nest_type: n.nest_type, class_name: mapped, encl_class_name: encl, encl_method, inner_name: inner, inner_access: n.inner_access });
+			}
+			// every nest is kept under its translated name, nothing else is there
+			if nests_to(&Nests::<NsB> { phantom: std::marker::PhantomData, all: wanted }) == nests_to(&out) { Ans::pass() } else { Ans::fail("translated_table") }
 		}
 		_ => Ans::BadOp("unknown op".into()),
 	}
@@ -441,8 +688,12 @@ fn gen_scene(r: &mut Rng, cfg: &SceneCfg, out: &mut Out) -> Scene {
 	let mut classes = tops.clone(); // candidates for enclosing classes
 	let mut nests: Vec<GNest> = Vec::new();
 	let mut depth: IndexMap<String, usize> = IndexMap::new();
-	for i in 0..r.below(cfg.max_nests + 1) {
-		let encl = if cfg.weird && r.chance(1, 12) { format!("{}Gone{}", r.pick(PKGS), r.below(3)) } else { r.pick(&classes).clone() };
+	let wanted = if cfg.max_nests == 0 || r.chance(1, 10) { 0 } else { r.range(1, cfg.max_nests) };
+	for i in 0..wanted * 2 {
+		if nests.len() >= wanted { break; }
+		// extend the most recent chain half of the time, so that depths 3 and 4 are common
+		let encl = if cfg.weird && r.chance(1, 12) { format!("{}Gone{}", r.pick(PKGS), r.below(3)) }
+			else if r.chance(1, 2) { classes[classes.len() - 1].clone() } else { r.pick(&classes).clone() };
 		let d = depth.get(&encl).copied().unwrap_or(0) + 1;
 		if d > 4 { continue; }
 		let kind = *r.pick(&['a', 'i', 'i', 'l']);
@@ -593,20 +844,21 @@ fn gen_text(r: &mut Rng, out: &mut Out) -> String {
 		let mut f: Vec<String> = lines[i].split('\t').map(|x| x.to_owned()).collect();
 		let m = r.below(14);
 		out.stats.hit(&format!("text:mutation-{m}"));
+		let set = |f: &mut Vec<String>, k: usize, v: String| { if let Some(x) = f.get_mut(k) { *x = v; } };
 		match m {
 			0 => { f.pop(); broken = true; }
 			1 => { f.push("x".into()); broken = true; }
-			2 => { f[0] = String::new(); broken = true; }
-			3 => { f[1] = String::new(); broken = true; }
-			4 => { f[4] = String::new(); broken = true; }
-			5 => { f[0] = (*r.pick(&["a//b", "[x", "a.b", "a;b", "/a", "a/"])).to_owned(); broken = true; }
-			6 => { f[1] = (*r.pick(&["a//b", "[x", "a.b"])).to_owned(); broken = true; }
-			7 => { f[2] = (*r.pick(&["<x>", "a.b", "a/b", "<init>", "<clinit>", "ok"])).to_owned(); if f[3].is_empty() { f[3] = "()V".into(); } }
-			8 => { f[3] = String::new(); }
-			9 => { f[2] = String::new(); }
-			10 => { f[5] = (*r.pick(&good_access)).to_owned(); }
-			11 => { f[5] = (*r.pick(&bad_access)).to_owned(); broken = true; }
-			12 => { f[4] = (*r.pick(&["12", "0", "1a", "a1", "1/2", "a/b", "1.", "[1"])).to_owned(); }
+			2 => { set(&mut f, 0, String::new()); broken = true; }
+			3 => { set(&mut f, 1, String::new()); broken = true; }
+			4 => { set(&mut f, 4, String::new()); broken = true; }
+			5 => { set(&mut f, 0, (*r.pick(&["a//b", "[x", "a.b", "a;b", "/a", "a/"])).to_owned()); broken = true; }
+			6 => { set(&mut f, 1, (*r.pick(&["a//b", "[x", "a.b"])).to_owned()); broken = true; }
+			7 => { set(&mut f, 2, (*r.pick(&["<x>", "a.b", "a/b", "<init>", "<clinit>", "ok"])).to_owned()); if f.get(3).is_some_and(|x| x.is_empty()) { set(&mut f, 3, "()V".into()); } }
+			8 => { set(&mut f, 3, String::new()); }
+			9 => { set(&mut f, 2, String::new()); }
+			10 => { set(&mut f, 5, (*r.pick(&good_access)).to_owned()); }
+			11 => { set(&mut f, 5, (*r.pick(&bad_access)).to_owned()); broken = true; }
+			12 => { set(&mut f, 4, (*r.pick(&["12", "0", "1a", "a1", "1/2", "a/b", "1.", "[1"])).to_owned()); }
 			_ => { let dup = lines[r.below(lines.len())].clone(); lines.push(dup); }
 		}
 		lines[i] = f.join("\t");
@@ -620,7 +872,11 @@ fn gen_text(r: &mut Rng, out: &mut Out) -> String {
 }
 
 fn gen(r: &mut Rng, tier: Tier, out: &mut Out) {
-	let rounds = if tier == Tier::Thorough { 12000 } else { 500 };
+	// `Rng::new(seed + 1)` is `Rng::new(seed)` advanced by one draw (the seed is multiplied by the stream increment), so
+	// neighbouring seeds would replay almost the same cases; continue from a hashed state instead
+	let mut forked = r.fork();
+	let r = &mut forked;
+	let rounds = if tier == Tier::Thorough { 20000 } else { 1000 };
 	for i in 0..rounds {
 		// 1. jar side on arbitrary scenes
 		let cfg = SceneCfg { max_tops: r.range(1, 3), max_nests: r.range(0, 6), weird: true, all_apply: false, underscores: r.chance(1, 6) };
@@ -634,12 +890,16 @@ fn gen(r: &mut Rng, tier: Tier, out: &mut Out) {
 			out.op("nest-name-map", &[ns.clone(), Sexp::str(&c)]);
 		}
 		out.op("oracle-names-agree", &[ns.clone(), jar.clone()]);
+		out.op("oracle-nest-jar-spec", &[ns.clone(), jar.clone()]);
 		// 2. scenes in which every nest applies: the domain of names_agree
 		let cfg2 = SceneCfg { max_tops: r.range(1, 3), max_nests: r.range(1, 6), weird: false, all_apply: true, underscores: false };
 		let sc2 = gen_scene(r, &cfg2, out);
 		let ns2 = nests_sexp(&sc2.nests);
 		out.op("oracle-names-agree", &[ns2.clone(), jar_sexp(&sc2.jar)]);
 		if i % 3 == 0 { out.op("nest-jar", &[Sexp::bool(true), ns2.clone(), jar_sexp(&sc2.jar)]); }
+		if i % 3 == 1 { out.op("oracle-nest-jar-spec", &[ns2.clone(), jar_sexp(&sc2.jar)]); }
+		// names with renaming; only where no enclosing class has to be synthesised (known defect otherwise)
+		out.op("oracle-remap-names", &[ns2.clone(), jar_sexp(&sc2.jar)]);
 		// 3. mappings side
 		let cfg3 = SceneCfg { max_tops: r.range(1, 3), max_nests: r.range(0, 5), weird: r.chance(1, 4), all_apply: false, underscores: r.chance(1, 5) };
 		let sc3 = gen_scene(r, &cfg3, out);
@@ -649,6 +909,8 @@ fn gen(r: &mut Rng, tier: Tier, out: &mut Out) {
 		out.op("map-nests", &[ns3.clone(), m3.clone()]);
 		out.op("apply-nests", &[m3.clone(), ns3.clone()]);
 		out.op("oracle-undo-apply", &[m3.clone(), ns3.clone()]);
+		out.op("oracle-apply-spec", &[m3.clone(), ns3.clone()]);
+		out.op("oracle-map-nests-spec", &[ns3.clone(), m3.clone()]);
 		// undo on a set whose keys are already nested names (built with the generator's own translation), and on raw sets
 		let fuel = sc3.nests.len() + 1;
 		let mut nested = Scene { nests: sc3.nests.clone(), jar: vec![], tops: sc3.tops.clone(),
@@ -662,6 +924,70 @@ fn gen(r: &mut Rng, tier: Tier, out: &mut Out) {
 		// 4. text format
 		let t = gen_text(r, out);
 		out.op("nests-read", &[Sexp::str(&t)]);
+	}
+	// exhaustive small scope 1: the truth table of the filter for one nest
+	for kind in ['a', 'i', 'l'] {
+		for inner in ["In", "1In", "7", "0", "-1", "2147483648"] {
+			for bits in 0..16u32 {
+				let (class_in, encl_in, method_given, method_there) = (bits & 1 != 0, bits & 2 != 0, bits & 4 != 0, bits & 8 != 0);
+				let m = ("m".to_owned(), "(I)V".to_owned());
+				let nest = GNest { kind, class: "X".into(), encl: "p/Out".into(), method: if method_given { Some(m.clone()) } else { None }, inner: inner.into(), access: 9 };
+				let mut jar = vec![GEntry::Class("zz/Other.class".into(), GClass::new("zz/Other", 9))];
+				if class_in { jar.push(GEntry::Class("X.class".into(), GClass::new("X", 7))); }
+				if encl_in { let mut c = GClass::new("p/Out", 8); if method_there { c.methods.push(m.clone()); } else { c.methods.push(("m".into(), "()V".into())); } jar.insert(0, GEntry::Class("p/Out.class".into(), c)); }
+				out.stats.hit("exhaustive:filter-one-nest");
+				out.op("nest-jar", &[Sexp::bool(bits & 1 == 0), nests_sexp(&[nest.clone()]), jar_sexp(&jar)]);
+				out.op("oracle-nest-jar-spec", &[nests_sexp(&[nest]), jar_sexp(&jar)]);
+			}
+		}
+	}
+	// exhaustive small scope 2: two nests X in Y, Y in Z; which of X, Y, Z are in the jar; both table orders
+	for (kx, ix) in [('i', "In"), ('a', "1"), ('l', "1Loc")] {
+		for (ky, iy) in [('i', "Mid"), ('a', "2")] {
+			for present in 0..8u32 {
+				for order in 0..2 {
+					let m = ("run".to_owned(), "()V".to_owned());
+					let nx = GNest { kind: kx, class: "X".into(), encl: "Y".into(), method: if kx == 'l' { Some(m.clone()) } else { None }, inner: ix.into(), access: 0 };
+					let ny = GNest { kind: ky, class: "Y".into(), encl: "Z".into(), method: None, inner: iy.into(), access: 8 };
+					let mut jar = vec![GEntry::Class("q/Keep.class".into(), GClass::new("q/Keep", 11))];
+					for (bit, name) in [(1, "X"), (2, "Y"), (4, "Z")] {
+						if present & bit != 0 { let mut c = GClass::new(name, 8); if name == "Y" { c.methods.push(m.clone()); } jar.push(GEntry::Class(format!("{name}.class"), c)); }
+					}
+					let ns = if order == 0 { vec![nx, ny] } else { vec![ny, nx] };
+					out.stats.hit("exhaustive:filter-two-nests");
+					out.op("nest-jar", &[Sexp::bool(order == 0), nests_sexp(&ns), jar_sexp(&jar)]);
+					out.op("oracle-nest-jar-spec", &[nests_sexp(&ns), jar_sexp(&jar)]);
+					out.op("oracle-names-agree", &[nests_sexp(&ns), jar_sexp(&jar)]);
+				}
+			}
+		}
+	}
+	// exhaustive small scope 3: every table of two nests over the classes A, B, C (self-replacing keys and cycles included)
+	// against one mapping set that mentions all three
+	{
+		let uni = ["A", "B", "C"];
+		let fld = |j: usize, d: &str| Sexp::list(vec![Sexp::str(&format!("f{j}")), Sexp::str(d), Sexp::str(d),
+			Sexp::list(vec![Sexp::list(vec![Sexp::str(&format!("f{j}"))]), Sexp::list(vec![])]), Sexp::list(vec![])]);
+		let items: Vec<Sexp> = uni.iter().enumerate().map(|(i, c)| Sexp::list(vec![Sexp::str(c),
+			Sexp::list(vec![Sexp::list(vec![Sexp::str(c)]), Sexp::list(vec![Sexp::str(&format!("t/T{i}"))])]), Sexp::list(vec![]),
+			Sexp::list(vec![fld(0, &format!("L{};", uni[(i + 1) % 3])), fld(1, &format!("[[L{};", uni[(i + 2) % 3]))]), Sexp::list(vec![])])).collect();
+		let m = Sexp::list(vec![Sexp::list(vec![Sexp::str("official"), Sexp::str("named")]), Sexp::list(vec![]), Sexp::list(items)]);
+		for c1 in uni { for e1 in uni { for c2 in uni { for e2 in uni {
+			if c1 == e1 || c2 == e2 { continue; }
+			for kinds in [('i', "In", 'i', "Jn"), ('a', "1", 'i', "Jn"), ('i', "In", 'a', "2")] {
+				let ns = vec![
+					GNest { kind: kinds.0, class: c1.into(), encl: e1.into(), method: None, inner: kinds.1.into(), access: 1 },
+					GNest { kind: kinds.2, class: c2.into(), encl: e2.into(), method: None, inner: kinds.3.into(), access: 8 },
+				];
+				let nss = nests_sexp(&ns);
+				out.stats.hit("exhaustive:two-nests-three-classes");
+				out.op("apply-nests", &[m.clone(), nss.clone()]);
+				out.op("oracle-apply-spec", &[m.clone(), nss.clone()]);
+				out.op("oracle-undo-apply", &[m.clone(), nss.clone()]);
+				out.op("nest-name-map", &[nss.clone(), Sexp::str(c1)]);
+				out.op("map-nests", &[nss.clone(), m.clone()]);
+			}
+		} } } }
 	}
 	// fixed edge cases
 	for t in ["", "\n", "a\tb\t\t\t1\t0", "a\tb\t\t\t1\t0\r", "a\tb\t\t\t1\t0\r\n", "a\tb\t\t\t1\t0\n\n", "a\tb\tm\t()V\t1Foo\t0x1a\na\tc\t\t\tFoo\t1\n",
